@@ -82,4 +82,9 @@ JPathTrace(e) ==
                r.ok /\ (IF e.f \in R THEN e.res # <<e.f>> \/ e.steps # <<>>
                         ELSE IF r.st.found THEN e.res # PathWalk(r.st.bp, R, e.f, Cardinality(A.Q) + 1)
                         ELSE e.res # <<"~none~">> \/ r.st.todo # {}))
+(* (G) a schedule enumerated by TLC (Schedules.tla), forced onto the real code: every scheduled   *)
+(* choice was available to the code, and the code ends in the state the model ends in           *)
+JSchedReplay(e) ==
+  BadB("binding_schedule_followed", ~e.followed)
+  \cup BadB("binding_final_state_is_model_state", e.followed /\ e.actual # e.expected)
 =============================================================================
